@@ -53,6 +53,14 @@ func (goHolder) Boom() *goHolder {
 // the same field name at different positions of two struct types reached through one interface-typed field
 type langKey string
 
+// nil values of interface types that have methods, as field, map element and slice element
+type nilErrs struct {
+	E    error
+	St   fmt.Stringer
+	Errs map[string]error
+	Strs []fmt.Stringer
+}
+
 type petCat struct{ Name, Sound string }
 type petDog struct{ Owner, Name string }
 type petHolder struct{ Pet interface{} }
@@ -248,6 +256,14 @@ func decodeVal(x *sx.Sexp) interface{} {
 			return goHolder{Arr: [2]string{"x<", "y"}}
 		case "ifacemap":
 			return map[interface{}]int{1: 10, "a": 11, [2]int{1, 2}: 12}
+		case "map8":
+			return map[uint8]string{44: "x"}
+		case "mapint":
+			return map[int]string{1: "one", -1: "neg"}
+		case "mapuint":
+			return map[uint]string{1: "uone", 18446744073709551615: "umax"}
+		case "nilerrs":
+			return nilErrs{Errs: map[string]error{"k": nil}, Strs: []fmt.Stringer{nil}}
 		case "langmap":
 			return map[langKey]string{"en": "Hello<", "de": "Hallo"}
 		case "nanmap1":
